@@ -41,6 +41,12 @@ func Split(p string) (dir, file string) {
 // The only possible returned error is ErrBadPattern, when pattern
 // is malformed.
 func (c *Client) Glob(pattern string) (matches []string, err error) {
+	// Check pattern is well-formed, as filepath.Glob does: a malformed pattern
+	// is an error even when no directory entry is ever matched against it.
+	if _, err := Match(pattern, ""); err != nil {
+		return nil, err
+	}
+
 	if !hasMeta(pattern) {
 		file, err := c.Lstat(pattern)
 		if err != nil {
